@@ -154,6 +154,28 @@ def pairing(ctx) -> None:
     ctx.check('self._state' in core.src(g.node) and 'self._state = cloudpickle.loads(state)' in core.src(s.node) and '_kwargs' not in core.src(s.node), 'C13.params', s, 'decorated actors keep state and hyper-parameters in separate slots (a state never overwrites parameters)', s.node, key='Stateful.Actor:slots')
 
 
+def trained_marker(ctx) -> None:
+    """Decorated stateful actors mark "untrained" with ``self._state is None``; a legitimately falsy trained state (0, {},
+    an empty frame) must still be exported/applied, so the marker is never tested by truthiness."""
+    from .. import types as typesmod
+
+    prog = ctx.prog
+    sa = prog.cls(f'{WACTOR}:Stateful.Actor')
+    n = 0
+    for mname in sa.methods:
+        fn = prog.func(f'{sa.ref}.{mname}')
+        for expr, kind, owner in typesmod.bool_contexts(fn.node):
+            if core.src(expr) in ('self._state', 'state') and mname != 'set_state':
+                if core.src(expr) == 'state' and not any(isinstance(s, ast.Assign) and core.src(s.targets[0]) == 'state' for s in core.walk_local(fn.node)):
+                    continue
+                n += 1
+                ctx.fail('C13.trained-marker', fn, f'`{core.src(expr)}` tested by truthiness: a trained but falsy state would be treated as untrained (exported as empty / refused); the untrained marker is `is None`', expr)
+        for cmp in [c for c in core.walk_local(fn.node) if isinstance(c, ast.Compare) and core.src(c.left) in ('self._state', 'state') and isinstance(c.ops[0], (ast.Is, ast.IsNot)) and core.is_const(c.comparators[0], None)]:
+            n += 1
+            ctx.ok('C13.trained-marker', fn, f'untrained marker tested with `{core.src(cmp)}`', cmp)
+    ctx.floor('C13.trained-marker', n, 3)
+
+
 def pickling(ctx) -> None:
     prog = ctx.prog
     spec = prog.cls(f'{TASK}:Spec')
@@ -173,4 +195,5 @@ def run(ctx) -> None:
     bracket(ctx)
     empty_state(ctx)
     pairing(ctx)
+    trained_marker(ctx)
     pickling(ctx)
